@@ -14,6 +14,8 @@
      ("debugsup_body" le version is_sup #name #rest)    -> #bytes  (Spec encoders)
      ("t_gabi" #img ((idx rsv align off #blob) ...) tbl) / ("t_zgnu" #img ((idx off #blob) ...) tbl)
                                                         -> spec view of the Coq transform of the parsed file
+     ("ok_gabi" #img args) / ("ok_zgnu" #img args)      -> the executable hypotheses of the invariance theorems
+                                                           (gabi_choice_ok; zgnu_choice_ok && plain_names && no_phantom)
      ("secs" #img)                                      -> the abstract sections (name type flags addr size #content)
 *)
 From PV Require Import Base.Outcome Base.Fmt Base.Prim Spec.C11Container Model.C11Elf Model.C11Dwarf.
@@ -134,6 +136,18 @@ Definition dispatch (req : sx) : sx :=
     match parse_image (gB a1) with
     | Ok e => sx_opt sx_view (debug_view (tbl_inflate (gL a3)) parse_opt 1 None
                                          (T_zgnu (zgnu_choice (gL a2)) e) true false)
+    | Err x => sx_of_err x
+    end
+  else if op =? "ok_gabi" then
+    (* the hypothesis of C11_view_invariant_gabi that is a bool *)
+    match parse_image (gB a1) with
+    | Ok e => sx_ok (sx_bool (gabi_choice_ok (gabi_choice (gL a2)) e))
+    | Err x => sx_of_err x
+    end
+  else if op =? "ok_zgnu" then
+    (* the bool hypotheses of C11_view_invariant_zgnu *)
+    match parse_image (gB a1) with
+    | Ok e => sx_ok (sx_bool (zgnu_choice_ok (zgnu_choice (gL a2)) e && plain_names e && no_phantom e))
     | Err x => sx_of_err x
     end
   else if op =? "secs" then
